@@ -156,13 +156,13 @@ Definition NH (s : state) : Prop := k_hold (k s) = false /\ k_state (k s) <> CS_
 (* a productive step of the command machine: the event machine's record is untouched *)
 Definition PC (s s' : state) : Prop := u s' = u s /\ NH s' /\ lexlt (cC s') (cC s).
 (* a productive step of the event machine *)
-Definition PU (s s' : state) : Prop := NH s' /\ lexlt (mU s') (mU s).
+Definition PU (s s' : state) : Prop := k s' = k s /\ NH s' /\ lexlt (mU s') (mU s).
 Definition PG (f : fsm) (s s' : state) : Prop := match f with ATCMD => PC s s' | UNSOL => PU s s' end.
 
 (* target-class form: the step ends in a phase of class at most n *)
 Definition TC (n : nat) (s s' : state) : Prop := u s' = u s /\ NH s' /\ hd 0 (cC s') <= n.
 Definition TU (n : nat) (s s' : state) : Prop :=
-  u_count (u s') = u_count (u s) /\ NH s' /\ hd 0 (cU s') <= n.
+  k s' = k s /\ u_count (u s') = u_count (u s) /\ NH s' /\ hd 0 (cU s') <= n.
 Definition TG (f : fsm) (nc nu : nat) (s s' : state) : Prop :=
   match f with ATCMD => TC nc s s' | UNSOL => TU nu s s' end.
 
@@ -176,13 +176,13 @@ Proof.
 Qed.
 Lemma TU_PU : forall n s s', TU n s s' -> n < hd 0 (cU s) -> PU s s'.
 Proof.
-  intros n s s' (A & B & C) H. split; [exact B|]. unfold mU. rewrite A. cbn [lexlt]. right. split; [reflexivity|].
+  intros n s s' (K & A & B & C) H. split; [exact K|]. split; [exact B|]. unfold mU. rewrite A. cbn [lexlt]. right. split; [reflexivity|].
   apply lexlt_hd; [lia | |]; intro E; apply (f_equal (@length nat)) in E; rewrite cU_len in E; discriminate.
 Qed.
 Lemma TC_le : forall n n' s s', TC n s s' -> n <= n' -> TC n' s s'.
 Proof. intros n n' s s' (A & B & C) H. repeat split; try assumption; try apply B. lia. Qed.
 Lemma TU_le : forall n n' s s', TU n s s' -> n <= n' -> TU n' s s'.
-Proof. intros n n' s s' (A & B & C) H. repeat split; try assumption; try apply B. lia. Qed.
+Proof. intros n n' s s' (K & A & B & C) H. repeat split; try assumption; try apply B. lia. Qed.
 
 End Measure.
 
@@ -269,8 +269,8 @@ Ltac pc_fin :=
     rw_ctx; ev; cbn [app]; lex_solve]].
 
 Ltac pu_fin :=
-  unf_helpers; unfold PU; split; [nh_fin | unfold mU, cU, ufl, upre, nv; ev;
-    rw_ctx; ev; cbn [app]; lex_solve].
+  unf_helpers; unfold PU; split; [ev; try reflexivity | split; [nh_fin | unfold mU, cU, ufl, upre, nv; ev;
+    rw_ctx; ev; cbn [app]; lex_solve]].
 
 Ltac pg_fin :=
   unfold PG;
@@ -363,7 +363,7 @@ Qed.
 Ltac tc_fin :=
   unf_helpers; unfold TC; split; [ev; try reflexivity | split; [nh_fin | unfold cC, cfl, fpre; ev; cbn [hd app]; try lia]].
 Ltac tu_fin :=
-  unf_helpers; unfold TU; split; [ev; try reflexivity | split; [nh_fin | unfold cU, ufl, upre; ev; cbn [hd app]; try lia]].
+  unf_helpers; unfold TU; split; [ev; try reflexivity | split; [ev; try reflexivity | split; [nh_fin | unfold cU, ufl, upre; ev; cbn [hd app]; try lia]]].
 Ltac tg_fin :=
   unfold TG;
   lazymatch goal with
@@ -398,8 +398,8 @@ Qed.
 
 Lemma TC_base : forall n s0 s s', TC n s s' -> u s = u s0 -> TC n s0 s'.
 Proof. intros n s0 s s' (A & B & C) H. split; [congruence | split; assumption]. Qed.
-Lemma TU_base : forall n s0 s s', TU n s s' -> u_count (u s) = u_count (u s0) -> TU n s0 s'.
-Proof. intros n s0 s s' (A & B & C) H. split; [congruence | split; assumption]. Qed.
+Lemma TU_base : forall n s0 s s', TU n s s' -> u_count (u s) = u_count (u s0) -> k s = k s0 -> TU n s0 s'.
+Proof. intros n s0 s s' (K & A & B & C) H H2. split; [congruence | split; [congruence | split; assumption]]. Qed.
 
 Lemma prt_TG : forall f s, NH s -> cmd_ok D (g_cmd f s) ->
   TG f 12 6 s (let (s3, ok3) := print_response_test D f s in if ok3 then s3 else end_with_error f s3).
@@ -416,11 +416,11 @@ Qed.
 
 
 Lemma TG_via : forall f nc nu nc' nu' s0 s s', TG f nc nu s s' -> nc <= nc' -> nu <= nu' ->
-  match f with ATCMD => u s = u s0 | UNSOL => u_count (u s) = u_count (u s0) end -> TG f nc' nu' s0 s'.
+  match f with ATCMD => u s = u s0 | UNSOL => u_count (u s) = u_count (u s0) /\ k s = k s0 end -> TG f nc' nu' s0 s'.
 Proof.
   intros f nc nu nc' nu' s0 s s' H L1 L2 E. destruct f; cbn [Lemmas_C15ba.TG] in *.
   - eapply TC_le; [eapply TC_base; eassumption | exact L1].
-  - eapply TU_le; [eapply TU_base; eassumption | exact L2].
+  - destruct E as [E1 E2]. eapply TU_le; [eapply TU_base; eassumption | exact L2].
 Qed.
 
 Lemma spfta_TG : forall f s, NH s -> cmd_ok D (g_cmd f s) ->
@@ -432,13 +432,13 @@ Proof.
     brk_pair. destruct b; cbn [negb]; [|tg_fin].
     destruct (c_vars c); [|tg_fin].
     match goal with |- context [print_response_test D ATCMD ?s2] =>
-      apply (TG_via ATCMD 12 6 13 7 s s2); [apply prt_TG | lia | lia | ]; ev; try assumption; try reflexivity end.
+      apply (TG_via ATCMD 12 6 13 7 s s2); [apply prt_TG | lia | lia | ]; ev; try assumption; try reflexivity; try (split; reflexivity) end.
     nh_fin.
   - brk_pair. destruct b; cbn [negb]; [|tg_fin].
     brk_pair. destruct b; cbn [negb]; [|tg_fin].
     destruct (c_vars c); [|tg_fin].
     match goal with |- context [print_response_test D UNSOL ?s2] =>
-      apply (TG_via UNSOL 12 6 13 7 s s2); [apply prt_TG | lia | lia | ]; ev; try assumption; try reflexivity end.
+      apply (TG_via UNSOL 12 6 13 7 s s2); [apply prt_TG | lia | lia | ]; ev; try assumption; try reflexivity; try (split; reflexivity) end.
     nh_fin.
 Qed.
 
@@ -461,7 +461,7 @@ Proof.
     + destruct (_ <=? _); cbn [fst snd]; pg_fin.
     + match goal with |- context [print_response_test D ATCMD ?s2] =>
         apply (TG_PG ATCMD 12 6); [apply (TG_via ATCMD 12 6 12 6 s s2); [apply prt_TG | lia | lia | ] | ];
-        ev; try assumption; try reflexivity end.
+        ev; try assumption; try reflexivity; try (split; reflexivity) end.
       * nh_fin.
       * unfold cC. rewrite Hst. cbn [hd]. lia.
   - brk_pair. destruct b; cbn [negb]; [|pg_fin]. ev. rewrite E1, E2.
@@ -469,7 +469,7 @@ Proof.
     + destruct (_ <=? _); cbn [fst snd]; pg_fin.
     + match goal with |- context [print_response_test D UNSOL ?s2] =>
         apply (TG_PG UNSOL 12 6); [apply (TG_via UNSOL 12 6 12 6 s s2); [apply prt_TG | lia | lia | ] | ];
-        ev; try assumption; try reflexivity end.
+        ev; try assumption; try reflexivity; try (split; reflexivity) end.
       * nh_fin.
       * unfold cU. rewrite Hst. cbn [hd]. lia.
 Qed.
@@ -674,17 +674,17 @@ Proof.
   assert (Hc2 : u_count (u s2) < u_count (u s)) by (subst s2; ev; lia).
   assert (Hk2 : cmd_ok D (g_cmd UNSOL s2)) by (subst s2; ev; exact Hci).
   assert (X : forall s', TU 7 s2 s' -> PU s s').
-  { intros s' (A & B & C). split; [exact B|]. unfold mU. cbn [lexlt]. left. lia. }
+  { intros s' (K & A & B & C). split; [rewrite K; subst s2; reflexivity|]. split; [exact B|]. unfold mU. cbn [lexlt]. left. lia. }
   destruct t; try (apply X; apply (spfra_TG UNSOL); assumption);
     try (apply X; apply (spfta_TG UNSOL); assumption);
-    (split; [exact Hnh2 | unfold mU; cbn [lexlt]; left; exact Hc2]).
+    (split; [reflexivity | split; [exact Hnh2 | unfold mU; cbn [lexlt]; left; exact Hc2]]).
 Qed.
 
 Lemma wait_PU : forall s, NH s -> u_state (u s) = US_FLUSH_WAIT -> k_state (k s) <> CS_FLUSH ->
   PU s (unsolicited_process_io_write_wait s).
 Proof.
   intros s Hnh Hst Hk. unfold unsolicited_process_io_write_wait. rewrite ncflush_true by exact Hk.
-  unfold PU. split; [nh_fin|].
+  unfold PU. split; [reflexivity|]. split; [nh_fin|].
   unfold mU, cU, ufl. ev. rewrite Hst. cbn [lexlt]. right. split; [reflexivity|]. apply lexlt_app_eq. lex_solve.
 Qed.
 
@@ -692,7 +692,7 @@ Lemma flush_adv_PU : forall s ch, NH s -> u_state (u s) = US_FLUSH -> length (ub
   wbuf_char (u_wbuf (u s)) (ubuf s) (u_position (u s)) = Some ch ->
   PU s (setu_position (S (u_position (u s))) s).
 Proof.
-  intros s ch Hnh Hst Hub E. unfold PU. split; [nh_fin|].
+  intros s ch Hnh Hst Hub E. unfold PU. split; [reflexivity|]. split; [nh_fin|].
   unfold mU, cU, ufl. ev. rewrite Hst. cbn [lexlt]. right. split; [reflexivity|]. apply lexlt_app_eq.
   pose proof (wbl_adv _ _ _ _ _ E Hub). unfold frank. cbn [lexlt]. left. lia.
 Qed.
@@ -707,21 +707,21 @@ Proof.
   intros s HS Hnh Hst. safe_open HS. unfold Lemmas_C03b.US in HU. rewrite Hst in HU. destruct HU as [_ HA].
   pose proof (wbl_le (usz_of D) (u_wbuf (u s)) (u_position (u s))) as Hw.
   destruct (u_wstate (u s)) eqn:Ew.
-  - unfold PU. split; [nh_fin|].
+  - unfold PU. split; [reflexivity|]. split; [nh_fin|].
     unfold mU, cU, ufl. ev. rewrite Hst, Ew. cbn [lexlt]. right. split; [reflexivity|].
     apply lexlt_app_eq. unfold frank. cbn [wsw wbl lexlt]. left. lia.
-  - unfold PU. split; [nh_fin|].
+  - unfold PU. split; [reflexivity|]. split; [nh_fin|].
     unfold mU, cU, ufl. ev. rewrite Hst, Ew. cbn [lexlt]. right. split; [reflexivity|].
     apply lexlt_app_eq. unfold frank. cbn [wsw wbl lexlt]. left. lia.
   - unfold Uafter in HA.
     destruct (u_wafter (u s)) eqn:Ea; try contradiction;
-      (unfold PU; split; [nh_fin|]);
+      (unfold PU; split; [reflexivity|]; split; [nh_fin|]);
       unfold mU, cU, ufl, upre; ev; rewrite Hst, Ea; cbn [app]; lex_solve.
 Qed.
 
 Lemma ureset_PU : forall s, NH s -> hd 0 (cU s) > 0 -> PU s (unsolicited_reset_state s).
 Proof.
-  intros s Hnh Hc. unfold unsolicited_reset_state. unfold PU. split; [nh_fin|].
+  intros s Hnh Hc. unfold unsolicited_reset_state. unfold PU. split; [reflexivity|]. split; [nh_fin|].
   unfold mU. cbn [lexlt]. right. split; [reflexivity|].
   unfold cU at 1. ev. destruct (cU s) as [|x r]; cbn [hd] in Hc; [lia|]. cbn [lexlt]. left. lia.
 Qed.
